@@ -204,6 +204,18 @@ def run(ctx: Ctx, rs: RuleSet, tier: str):
   ok_seed = all(unparse(s.value).endswith('.signature') and
                 unparse(s.targets[0].slice) == f'id({unparse(s.value)})'
                 for s in seeds) and len(seeds) <= 1
+  rebound = [n for n in walk_function(df.node) if isinstance(
+      n, (ast.Assign, ast.AugAssign, ast.AnnAssign)) and any(
+          isinstance(t, ast.Name) and t.id == memo
+          for t in (n.targets if isinstance(n, ast.Assign) else [n.target]))]
+  rs.check(not rebound, rule, f'{df.qualname}:memo-shared',
+           'the memo passed on to copy.deepcopy is the caller\'s memo object '
+           '(objects shared between sub-Buildables are copied once)'
+           if not rebound else
+           f'`{unparse(rebound[0])}` replaces the caller\'s memo: copies made '
+           'below this Buildable are not recorded for its siblings, so a node '
+           'shared across sub-Buildables is duplicated by deepcopy',
+           ctx.loc(df, rebound[0] if rebound else df.node))
   rs.check(ok_seed, rule, f'{df.qualname}:memo-seed',
            'the memo is pre-seeded only with the immutable signature object '
            f'({[unparse(s) for s in seeds]})', ctx.loc(df, df.node))
